@@ -15,10 +15,16 @@ def InRange32 (n : Int) : Prop := -2147483648 ≤ n ∧ n ≤ 2147483647
 instance (n : Int) : Decidable (InRange32 n) := by unfold InRange32; infer_instance
 
 /-- A value a custom scalar's OWN parser produced — from some non-null JSON value (`parse`) or from some literal that
-    `value_from_ast` hands it (`litAdmitted`: scalar literals; any literal if the scalar has its own `parse_literal`):
-    "the scalar accepted it". Nothing else is known, or needs to be known, about a custom scalar. -/
+    `value_from_ast` hands it: never `null` (answered `None` before any parser is asked: `vfaCore` tests `isNull` first), never
+    a bare `$x` (`_extract_variable` answers it), and `litAdmitted` (scalar literals; any literal if the scalar has its own
+    `parse_literal`): "the scalar accepted it". Nothing else is known, or needs to be known, about a custom scalar.
+    (Audit C07-F1: without the two exclusions the stand-in scalar of `build_schema`, whose `_untyped_literal` answers `None`
+    to `null`, made `CustomOK reg n .none` true and hence `RegOK.customNotNone` — and every soundness theorem — vacuous for
+    every SDL schema declaring a scalar. `customNotNone_ofTypes` / `regOK_satisfiable_with_default_scalar` in
+    Props/C07_regok.lean now PROVE the hypothesis for the registries the library builds.) -/
 def CustomOK (reg : Reg) (n : String) (pv : PV) : Prop :=
-  (∃ v, v.isNull = false ∧ reg.customParse n v = .value pv) ∨ (∃ l vs, litAdmitted reg n l = true ∧ reg.customParseLiteral n vs l = .value pv)
+  (∃ v, v.isNull = false ∧ reg.customParse n v = .value pv) ∨
+  (∃ l vs, l.isNull = false ∧ (∀ x, l ≠ .var x) ∧ litAdmitted reg n l = true ∧ reg.customParseLiteral n vs l = .value pv)
 
 mutual
 /-- `Conforms reg ty v`: the Python value `v` is a legal resolver argument for a position of type `ty`.
@@ -54,7 +60,9 @@ end
 
 /-- well-formed registry: field types are well-formed type expressions, declared defaults conform to
     their types (a schema built from SDL coerces them with `value_from_ast`), enum internal values are not `None`,
-    a custom scalar's parser never answers `None` to a non-null input (the counterpart of `enumNotNone` for user code),
+    a custom scalar's parser never answers `None` to a non-null input — a non-null JSON value, or a literal other than `null` / `$x`,
+    which are the only inputs the library hands it (the counterpart of `enumNotNone` for user code; `default_scalar` meets it:
+    `customNotNone_ofTypes`),
     the python names of one input object's fields are pairwise distinct (otherwise two fields write the same dict key;
     the model follows that collision, `dictOfAssignments`, but then no dict can hold both fields). -/
 structure RegOK (reg : Reg) : Prop where
@@ -91,6 +99,11 @@ inductive VarsFit (reg : Reg) (vars : Option (List (String × PV))) : Ty → Lit
       reg.get? n = some (.input fs) →
       (∀ f, f ∈ fs → ∀ l, lookupLast f.name lkvs = some l → VarsFit reg vars f.type l) →
       VarsFit reg vars ty (.obj lkvs)
+  /-- a literal other than `$x` at a custom-scalar position (a list or object literal included: the scalar's own
+      `parse_literal` is handed the whole literal and the variables, and whatever it answers is `CustomOK`): nothing to check
+      (audit C07-F2: without this constructor `[1]` / `{a: 1}` at a JSON-like scalar made `arguments_sound` inapplicable) -/
+  | scalarPos {ty : Ty} {n : String} {l : Lit} : stripNN ty = .named n → reg.get? n = some .custom → (∀ x, l ≠ .var x) →
+      VarsFit reg vars ty l
 
 /-- What the validation rule VariablesInAllowedPosition has checked for the variables used inside literal `l` at a
     position of type `ty` (`hasDefault`: the position — argument or input field — declares a default): every usage `$x`
@@ -109,6 +122,9 @@ inductive VarsAllowed (reg : Reg) (defs : List VarDef) : Ty → Bool → Lit →
       reg.get? n = some (.input fs) →
       (∀ f, f ∈ fs → ∀ l, lookupLast f.name lkvs = some l → VarsAllowed reg defs f.type f.default.isSome l) →
       VarsAllowed reg defs ty hasDefault (.obj lkvs)
+  /-- a literal other than `$x` at a custom-scalar position: the rule checks nothing inside it (it has no type to check against) -/
+  | scalarPos {ty : Ty} {hasDefault : Bool} {n : String} {l : Lit} : stripNN ty = .named n → reg.get? n = some .custom →
+      (∀ x, l ≠ .var x) → VarsAllowed reg defs ty hasDefault l
 
 /-- the literal spelling of a JSON scalar, type-blind (what a custom scalar's `parse_literal` is handed) -/
 inductive LeafSpell : JV → Lit → Prop
